@@ -48,14 +48,34 @@ def build(seed):
     iff.outputs[0].shape = ir.Shape(["N", 3])
     call = ir.Node("dom", "f", [iff.outputs[0]], name="call")
     call.outputs[0].name = "z"
+    gz = None
     g = ir.Graph([x, c, seq], [call.outputs[0], a.outputs[0]], nodes=[a, iff, call], initializers=[w], name="main",
-                 opset_imports={"": 18, "dom": 1}, doc_string="gdoc", metadata_props={"mk": "mv"})
+                 opset_imports={"": 18, "dom": 1, "custom": 1}, doc_string="gdoc", metadata_props={"mk": "mv"})
     g.meta["gm"] = "meta"
     fi = ir.Value(name="fi", type=ir.TensorType(ir.DataType.FLOAT), shape=ir.Shape(["K"]))
     fn = ir.Node("", "Relu", [fi], name="fn")
     fn.outputs[0].name = "fo"
-    fg = ir.Graph([fi], [fn.outputs[0]], nodes=[fn], name="fg", opset_imports={"": 18})
+    # attributes of every kind, each with a doc string, on a node of the function body and of the main graph
+    def zoo(tag, src):
+        b1 = ir.Graph([], [], nodes=[], name=f"{tag}_b1")
+        b2 = ir.Graph([], [], nodes=[], name=f"{tag}_b2")
+        attrs = [
+            ir.Attr("a_i", ir.AttributeType.INT, 3, doc_string="doc int"),
+            ir.Attr("a_fs", ir.AttributeType.FLOATS, [0.5, 1.5], doc_string="doc floats"),
+            ir.Attr("a_s", ir.AttributeType.STRING, "txt", doc_string="doc str"),
+            ir.Attr("a_t", ir.AttributeType.TENSOR, ir.Tensor(np.array([7], dtype=np.int32), name=f"{tag}_at"), doc_string="doc tensor"),
+            ir.Attr("a_g", ir.AttributeType.GRAPH, b1, doc_string="doc graph"),
+            ir.Attr("a_gs", ir.AttributeType.GRAPHS, [b2], doc_string="doc graphs"),
+        ]
+        n_ = ir.Node("custom", "Zoo", [src], attributes=attrs, name=f"{tag}_zoo", doc_string=f"{tag} zoo node")
+        n_.outputs[0].name = f"{tag}_zo"
+        return n_
+
+    fz = zoo("f", fi)
+    fz.attributes["a_ref"] = ir.Attr("a_ref", ir.AttributeType.INT, None, ref_attr_name="alpha", doc_string="doc ref")
+    fg = ir.Graph([fi], [fn.outputs[0]], nodes=[fn, fz], name="fg", opset_imports={"": 18, "custom": 1})
     f = ir.Function("dom", "f", graph=fg, attributes=[ir.AttrInt64("alpha", 2)])
+    g.append(zoo("g", a.outputs[0]))
     m = ir.Model(g, ir_version=11, producer_name="p", functions=[f], metadata_props={"model_k": "model_v"}, doc_string="mdoc")
     cfg_a = m.add_device_configuration("cfgA", num_devices=2)
     cfg_b = m.add_device_configuration("cfgB", num_devices=2)
